@@ -93,6 +93,7 @@ theorem C05_images_idempotent_partial (doc : PyVal) (s : ImgState) (h : deserial
       ∧ (triples s'.cells).Perm (triples s.cells) ∧ s'.compose = composeNorm s.compose
       ∧ s'.version = .str currentVersion ∧ Uniq s'.cells ∧ composeNorm s'.compose = s'.compose := by
   obtain ⟨_, hc, hi, ha⟩ := C05_images_loaded_is_normal doc s h
+  have hi : ∀ i ∈ s.cells.all, i.validate = .ok () := fun i h => (hi i h).1
   obtain ⟨doc', s', h1, h2, h3, h4, h5⟩ := C02_readback_partial s hc hi ha hu
   obtain ⟨_, _, _, hu', hn⟩ := C02_cycle_closed s s' hc hi ha hu h3 h4
   exact ⟨doc', s', h1, h2, deserializeL_of_deserialize doc' s' h2, h3, h4, h5, hu', hn⟩
